@@ -779,3 +779,65 @@ theorem processRows_frame (dl : Str) (key : List (Str × List Str)) (lists : Lis
       · cases h
 
 end Pyxv.Binds
+
+namespace Pyxv.Binds
+open Pyxv
+
+/-! ### single-colon headers with more than one colon (`bind:jr:constraintMsg`) -/
+
+theorem splitOnChar_prefix' (rest : Str) : ∀ (pre : Str), (∀ c ∈ pre, c ≠ ':') →
+    splitOnChar ':' (pre ++ ':' :: rest) = pre :: splitOnChar ':' rest := by
+  intro pre
+  induction pre with
+  | nil =>
+    intro _
+    simp only [List.nil_append]
+    rw [splitOnChar]
+    cases h : splitOnChar ':' rest with
+    | nil => simp
+    | cons f fs => simp
+  | cons c p ih =>
+    intro hc
+    have h1 : c ≠ ':' := hc c (List.mem_cons_self ..)
+    simp only [List.cons_append]
+    rw [splitOnChar, ih (fun x hx => hc x (List.mem_cons_of_mem _ hx))]
+    simp [h1]
+
+theorem splitOnChar_ne_nil (d : Char) : ∀ (s : Str), splitOnChar d s ≠ [] := by
+  intro s
+  induction s with
+  | nil => simp [splitOnChar]
+  | cons c t ih =>
+    rw [splitOnChar]
+    cases h : splitOnChar d t with
+    | nil => exact absurd h ih
+    | cons f fs => by_cases hc : c = d <;> simp [hc]
+
+/-- a colon-free prefix and one colon do not create a `::` unless the rest starts with a colon -/
+theorem isInfix_dcolon_step (rest : Str) (hr : rest.head? ≠ some ':') : ∀ (pre : Str), (∀ c ∈ pre, c ≠ ':') →
+    isInfix "::".toList (pre ++ ':' :: rest) = isInfix "::".toList rest := by
+  intro pre
+  induction pre with
+  | nil =>
+    intro _
+    simp only [List.nil_append]
+    rw [isInfix]
+    have : startsWith (':' :: rest) "::".toList = false := by
+      cases rest with
+      | nil => simp [startsWith]
+      | cons x xs =>
+        have : x ≠ ':' := by intro e; subst e; simp at hr
+        simp [startsWith, this]
+    rw [this, Bool.false_or]
+  | cons c p ih =>
+    intro hc
+    have h1 : c ≠ ':' := hc c (List.mem_cons_self ..)
+    simp only [List.cons_append]
+    rw [isInfix, ih (fun x hx => hc x (List.mem_cons_of_mem _ hx))]
+    have : startsWith (c :: (p ++ ':' :: rest)) "::".toList = false := by
+      show startsWith (c :: (p ++ ':' :: rest)) [':', ':'] = false
+      unfold startsWith
+      simp [h1]
+    rw [this, Bool.false_or]
+
+end Pyxv.Binds
